@@ -45,6 +45,9 @@ def gen_cases(tier: str, seed: int):
         k = zoo.SYSTEMS[i % len(zoo.SYSTEMS)]
         spec = zoo.random_sys_spec(rng, kinds=(k,), dim_range=(2, 4))
         yield {"kind": "history", "spec": spec, "length": int(rng.integers(4, maxlen + 1)), "seed": [seed, int(rng.integers(0, 2**31))]}
+    for k in zoo.SYSTEMS:
+        spec = zoo.random_sys_spec(rng, kinds=(k,), dim_range=(2, 3))
+        yield {"kind": "templates", "spec": spec, "seed": [seed, int(rng.integers(0, 2**31))]}
     # directed: highest-order derivative first (value-returning conventions), then everything it should have made known
     for rep in range({"quick": 3, "thorough": 30}[tier]):
         for k in zoo.SYSTEMS:
@@ -163,6 +166,16 @@ def aux_program(kind: str, variant: int) -> list:
 def run_case(case, obs) -> None:
     if case["kind"] == "trajectory":
         case_trajectory(case, obs)
+        return
+    if case["kind"] == "templates":
+        spec = case["spec"]
+        rng = np.random.default_rng([abs(int(s)) for s in case["seed"]])
+        for prog in hist.template_programs(spec["sys"], rng):
+            runner = hist.Runner(spec, obs, "c18")
+            runner.start(rng)
+            runner.run(prog)
+            obs.count("template_histories")
+        obs.token("templates", spec["sys"])
         return
     if case["kind"] == "aux":
         spec = case["spec"]
